@@ -89,7 +89,8 @@ type rBlock struct {
 	why       string
 	view      map[outpoint]rCoin // UTXO set after this block (only when valid)
 	work      *big.Rat           // cumulative exact work of the branch (genesis excluded)
-	firstSeen int                // delivery index at which the node got to know it (-1 = not known)
+	firstSeen int                // delivery index at which the node got to know it WITH ITS DATA, the data of all its ancestors being known (-1 = not yet)
+	linked    int                // delivery index at which its node was linked under its parent (header alone, or header and data at once; -1 = not yet)
 	delivered bool
 }
 
@@ -262,7 +263,9 @@ func fallbackChoice(blocks []*rBlock, countLeaf bool) (*rBlock, []*rBlock) {
 		}
 	}
 	for _, ks := range kids {
-		sort.Slice(ks, func(i, j int) bool { return ks[i].firstSeen < ks[j].firstSeen })
+		// the order of a node's child list is the order in which the children were LINKED (AcceptHeader appends): with
+		// header-first delivery that is the arrival of the header, not of the data
+		sort.Slice(ks, func(i, j int) bool { return ks[i].linked < ks[j].linked })
 	}
 	value := func(leaf *rBlock) *big.Rat {
 		if leaf.Parent == nil {
